@@ -30,6 +30,10 @@ pub enum Regime {
     Stair,
     /// short saw-tooth with inexact steps: m * (1.1 + (t mod 7) * 123.456) - biased rounding of the deltas
     ShortSaw,
+    /// exact symmetric triangle c, c+d, c, c-d (signed offsets from any element cancel exactly)
+    Tri4,
+    /// zeros of both signs mixed with small signed values (bar-to-bar changes of a quiet price)
+    ZeroMix,
 }
 
 impl Regime {
@@ -49,6 +53,8 @@ impl Regime {
             Regime::Outlier => "outlier",
             Regime::Stair => "stair",
             Regime::ShortSaw => "short-saw",
+            Regime::Tri4 => "tri4",
+            Regime::ZeroMix => "zero-mix",
         }
     }
 }
@@ -120,6 +126,8 @@ impl Gen {
             }
             Regime::Outlier => self.x,
             Regime::ShortSaw => m * (1.1 + (self.t % 7) as f64 * 123.456),
+            Regime::Tri4 => m * (8.0 + [0.0, 1.0, 0.0, -1.0][self.t % 4]),
+            Regime::ZeroMix => [0.0, -0.0, m, -0.0, -m, 0.0, 0.0, -2.0 * m, -0.0][self.t % 9],
             Regime::Stair => {
                 // triangle wave between 100 m and 200 m, one move every second step: stays inside the band
                 let j = (self.t / 2) % 40;
